@@ -247,6 +247,11 @@ def gen_spec(seed, index, tier):
                 elif r < 0.16:
                     # almost axis-aligned: coordinates about the centre tiny but not zero
                     kw = {"rotate": False, "noise": 10 ** shape_rng.uniform(-10, -7.5)}
+            if cls == "Polyhedron" and shape_rng.chance(0.08):
+                # a polyhedron with a non-convex face: volume, centroid, to_hoomd raise -
+                # a query that raises must leave the shape as it was, too
+                kw["allow_invalid_faces"] = True
+                kw["family"] = "l_prism_nonconvex"
             cand = gen.gen_base(shape_rng, cls, scale=sc,
                                 offset_diam=shape_rng.choice([1.0, 1.0, 3.0, 10.0]), **kw)
         try:
